@@ -138,6 +138,78 @@ def build(tier, work, builder):
     J("c06_error_str", "h_c06_error_str", ["error_t::str (column arithmetic)"], cbmc_args=["--unsigned-overflow-check"])
     J("c06_block_lemma", "h_c06_block_lemma", ["PositionTracker::setPath/increment/newline + Document::add_error (composition)"],
       bound_note="one block: <= 2 line breaks and <= 3 tokens after an arbitrary history summarised by the invariant; table <= 6 entries", level="bounded", unwind=12)
+    # ---- part D: line counting of the scanner's newline rules (bounded)
+    lx = X.Source("src/lexer.l")
+    body = lx.text[lx.text.index("\n%%\n") + 4:]
+    body = body[:body.index("\n%%\n")] if "\n%%\n" in body else body
+    rules = []
+    for rm in re.finditer(r"^[ \t]*(\S(?:[^\n{]|\{[a-z]+\})*?)[ \t]+\{", body, re.M):
+        # rule = pattern at line start followed by an action block that mentions tracker.newline
+        b0 = lx.text.index(body) + rm.end() - 1
+        try:
+            b1 = lx.match_brace(b0)
+        except Exception:
+            continue
+        act = lx.text[b0:b1]
+        pat = rm.group(1).strip()
+        if "tracker.newline(" in act and not pat.startswith("<") and not pat.endswith("{"):
+            rules.append((pat, act, b0))
+
+    def flex_to_re(pat):
+        """flex pattern -> python regex, for the constructs the newline rules use (quoted literals, escapes, classes, groups, + * ?)"""
+        out, i = "", 0
+        while i < len(pat):
+            c = pat[i]
+            if c == '"':
+                j = i + 1
+                lit = ""
+                while pat[j] != '"':
+                    if pat[j] == "\\":
+                        lit += {"n": "\n", "r": "\r", "t": "\t", "\\": "\\"}.get(pat[j + 1], pat[j + 1]); j += 2
+                    else:
+                        lit += pat[j]; j += 1
+                out += re.escape(lit); i = j + 1
+            elif c == "\\":
+                out += {"n": "\n", "r": "\r", "t": "\t"}.get(pat[i + 1], re.escape(pat[i + 1])); i += 2
+            elif c == "[":
+                j = pat.index("]", i)
+                out += pat[i:j + 1]; i = j + 1
+            elif c in "()+*?|":
+                out += c; i += 1
+            elif c == " ":
+                raise X.ExtractionBroken("lexer.l newline rule: unquoted blank in pattern " + pat)
+            else:
+                out += re.escape(c); i += 1
+        return out
+    import itertools
+    alpha = ["\r", "\n", "\\", " ", "\t", "x"]
+    cases, gen = 0, ["/* GENERATED from src/lexer.l: the rules whose action calls tracker.newline, their REAL action text, and every text of", "   <= 5 characters over {CR, LF, backslash, blank, tab, x} their pattern matches in full */"]
+    if len(rules) < 2:
+        raise X.ExtractionBroken("lexer.l: fewer than two newline-counting rules found")
+    for k, (pat, act, b0) in enumerate(rules):
+        rx = re.compile(flex_to_re(pat))
+        gen.append("/* rule %d: %s */" % (k, pat.replace("*/", "* /")))
+        gen.append("static int rule_%d(const char* utap_text, int yyleng)\n{\n    %s\n    return 0;\n}" % (k, act))
+        slices.append(X.Slice("lexer.l newline rule: " + pat, lx, b0, b0 + len(act)))
+    gen.append("static void run_all_cases(void)\n{")
+    for k, (pat, act, b0) in enumerate(rules):
+        rx = re.compile(flex_to_re(pat))
+        for n in range(1, 6):
+            for tup in itertools.product(alpha, repeat=n):
+                s = "".join(tup)
+                if rx.fullmatch(s):
+                    lit = "".join({"\r": "\\r", "\n": "\\n", "\\": "\\\\", "\t": "\\t"}.get(c, c) for c in s)
+                    gen.append('    { g_lines = 0; g_calls = 0; rule_%d("%s", %d); __CPROVER_assert(g_lines == %d, "c06.lexer.newline-rule-reports-as-many-lines-as-the-matched-text-has-line-terminators"); }'
+                               % (k, lit, len(s), s.count("\n")))
+                    cases += 1
+    gen.append("}")
+    if cases < 8:
+        raise X.ExtractionBroken("lexer.l: the newline rules match almost nothing")
+    write(work, "lexer_newline_cases.inc", "\n".join(gen) + "\n")
+    nlobj = builder.cc(os.path.join(CDIR, "nl06.cpp"), includes=[work], cpp=True)
+    jobs.append(F.Job("c06_lexer_newlines", "h_c06_lexer_newlines", [nlobj], level="bounded", unwind=2,
+                      functions=["lexer.l rules whose action calls tracker.newline (actions on every matching text of <= 5 characters: %d cases)" % cases],
+                      bound_note="matched texts of <= 5 characters over {CR, LF, backslash, blank, tab, x}"))
     # ---- part C: under which XPath the XML reader hands a text block to the grammar (the scripts of C04's kernel K1, with
     #      the c06.reader.* obligations switched on instead of the c04.* ones)
     from checks import C04
